@@ -1038,6 +1038,8 @@ class Version:
 
 
 def _version_extract_cmpop(vstr2: str) -> T.Tuple[T.Callable[[T.Any, T.Any], bool], str]:
+    # blanks around the operator are not significant (' >= 1.0' is '>=1.0')
+    vstr2 = vstr2.strip()
     if vstr2.startswith('>='):
         cmpop = operator.ge
         vstr2 = vstr2[2:]
